@@ -95,13 +95,17 @@ Ltac spec_nat Cnew Cseen Cwin Cone Hf :=
       end
   end.
 
-Lemma invC_step w e w' : invC w -> wstep w e = Some w' -> e <> ERcSend false -> invC w'.
+(* handleReconnect gives up: a websocket send fails (ERcSend false) or a request cannot even be built (ERcBuildFail) *)
+Definition rc_gives_up (e : wev) : bool :=
+  match e with ERcSend false | ERcBuildFail _ => true | _ => false end.
+
+Lemma invC_step w e w' : invC w -> wstep w e = Some w' -> rc_gives_up e = false -> invC w'.
 Proof.
   intros C H Hab.
   pose proof (c_new w C) as Cnew; pose proof (c_seen w C) as Cseen; pose proof (c_win w C) as Cwin;
   pose proof (c_one w C) as Cone; pose proof (c_nd_conf w C) as Cndc; pose proof (c_nd_todo w C) as Cndt.
   clear C.
-  destruct e; step_cases H; try congruence; constructor; wsimp;
+  destruct e; step_cases H; cbn [rc_gives_up] in Hab; try congruence; constructor; wsimp;
     rewrite ?todo_hnorm; cbn [sends_since_clear todo]; auto.
   all: try (apply NoDup_nremove; assumption).
   all: try (intros Hf; try (apply orb_false_elim in Hf; destruct Hf as [Hf Hex])).
@@ -160,7 +164,7 @@ Proof.
   constructor; cbn; intros; try constructor; try discriminate; try contradiction; auto.
 Qed.
 
-Definition no_rc_abort (evs : list wev) : Prop := Forall (fun e => e <> ERcSend false) evs.
+Definition no_rc_abort (evs : list wev) : Prop := Forall (fun e => rc_gives_up e = false) evs.
 
 Lemma invC_run evs : forall w w', invC w -> no_rc_abort evs -> wrun evs w = Some w' -> invC w'.
 Proof.
@@ -236,7 +240,7 @@ Proof.
   all: try (rewrite cnt_in_move by assumption; solve [auto]).
   all: try solve [inversion Cndt; assumption].
   all: try solve [cbn [In] in *; inversion Cndt; subst; intuition (subst; try tauto; try lia)].
-  constructor.
+  all: constructor.
 Qed.
 
 Lemma invC0_init : invC0 winit.
